@@ -2,19 +2,30 @@
 Deductive part: the shape/stride arithmetic of the real conv._get_convolve_params (all D <= 3, symbolic lengths/strides/channels):
 output length = number of samples of range(0, L, s) with L = m+n-1 (full) or |m-n|+1 (valid: data or filter may be the longer one); raises exactly on channel mismatch,
 wrong number of strides, mixed larger/smaller axes in valid mode, unknown mode.  The linops built on it (ConvolveData/Filter and their
-adjoints) forward identical parameters to the adjoint functions (C01).  The convolution sums themselves run inside scipy.signal
-(convolve / correlate): that clause is covered by the bounded native probe only and is reported as not decided."""
+adjoints) forward identical parameters to the adjoint functions (C01).
+
+The convolution sums run inside scipy.signal (compiled code outside /repo).  They enter through an ASSUMED contract (class
+ScipyC: convolve 'full' is sum_j a[j] b[k-j], 'valid' is its window starting at min(len)-1, correlate(a, b) is
+convolve(a, conj(reverse(b)))), probed (bounded) on the installed scipy.  Against that contract the real _convolve,
+_convolve_data_adjoint and _convolve_filter_adjoint (reshape to [B, c, ...], channel loops, stride slicing, zero-stuffing,
+choice of the correlation mode) are PROVED for D = 1 (2 thorough) with symbolic lengths and strides and 1-2 batch
+entries / channels: convolve is the strided multi-channel convolution sum of the property text, and the two adjoint
+functions have the conjugate coefficients (exact adjoints) and the requested shapes - including 'valid' mode with the
+filter longer than the data."""
 import itertools
 import z3
 from .common import *  # noqa: F401,F403
 
 CONV = "sigpy/conv.py"
 UTIL = "sigpy/util.py"
-ASSUMPTIONS = ["extents, strides >= 1", "scipy.signal.convolve/correlate contracts are NOT used deductively: the definition clause is bounded-only"]
-TRUSTED = []
-BOUNDS = {"D": "1..3"}
-NOT_DECIDED = ["equality of convolve / convolve_data_adjoint / convolve_filter_adjoint with the explicit (strided, multi-channel) convolution sum and its "
-               "transposes: inside scipy.signal; bounded native probe with D<=2, lengths<=5, strides<=3, channels<=2, batch<=2"]
+ASSUMPTIONS = ["extents, strides >= 1",
+               "scipy.signal contract (class ScipyC): convolve(a,b,'full')[k] = sum_j a[j] b[k-j]; 'valid' = the window of the full result starting at "
+               "min(len a, len b) - 1 of length |len a - len b| + 1 (one operand at least as long in every axis, else ValueError); "
+               "correlate(a,b,mode) = convolve(a, conj(reverse(b)), mode).  Assumed; probed (bounded) on the installed scipy",
+               "batch entries and channel counts concrete (1, 2) in the sum obligations; lengths and strides symbolic"]
+TRUSTED = ["linear-form domain of pyvc/snp.py", "scipy.signal (compiled, outside /repo)"]
+BOUNDS = {"D": "1..3 (shape arithmetic); 1 (2 thorough) for the sums", "channels / batch entries": "1..2 (sums)"}
+NOT_DECIDED = ["scipy.signal's own correctness (assumed contract; bounded probe)", "D = 3 sums: bounded native probe only", "the cuDNN path (disabled)"]
 
 
 def functions():
@@ -107,6 +118,180 @@ def job_reject(timeout_ms):
     return check_obligations(obs_all, timeout_ms) + cov_all
 
 
+# ----------------------------------------------------------------------------- the convolution sums against the scipy contract
+from pyvc.snp import SArr, LF, C, Term, Binder, lf_equal_goals  # noqa: E402
+
+
+def _is_linear(a):
+    return bool(a.elem(tuple(z3.IntVal(0) for _ in a.shape)).terms)
+
+
+class ScipyC:
+    """assumed contract of scipy.signal.convolve / correlate (N-D, modes full / valid)"""
+
+    @staticmethod
+    def convolve(in1, in2, mode="full", method="auto"):
+        if in1.ndim != in2.ndim:
+            raise snp.SValueError("in1 and in2 should have the same dimensionality")
+        lin, val = (in1, in2) if (_is_linear(in1) or not _is_linear(in2)) else (in2, in1)     # convolution commutes
+        if _is_linear(val):
+            raise core.Unsupported("convolution of two input-dependent arrays")
+        nd = lin.ndim
+        ML, MV = list(lin.shape), list(val.shape)
+        if mode == "full":
+            off = [0] * nd
+            oshape = [S(a) + S(b) - 1 for a, b in zip(ML, MV)]
+        elif mode == "valid":
+            ge = core.sym_all(S(a) >= S(b) for a, b in zip(in1.shape, in2.shape))
+            le = core.sym_all(S(a) <= S(b) for a, b in zip(in1.shape, in2.shape))
+            if not (ge or le):
+                raise snp.SValueError("For 'valid' mode, one must be at least as large as the other in every dimension")
+            off = [core.sym_min(S(a), S(b)) - 1 for a, b in zip(ML, MV)]
+            oshape = [core.sym_max(S(a), S(b)) - core.sym_min(S(a), S(b)) + 1 for a, b in zip(ML, MV)]
+        else:
+            raise snp.SValueError("acceptable mode flags are 'valid', 'same', or 'full'")
+        ls, vs = lin._snapshot(), val._snapshot()
+
+        def el(k):
+            c = core.cur()
+            js = [core.fresh_int("cj") for _ in range(nd)]
+            binders = [Binder(j, 0, n) for j, n in zip(js, ML)]
+            saved = list(c.binders)
+            try:
+                # witnesses (div / mod of a strided store) created while the summand is evaluated are functions of the
+                # summation variables: they become functionally defined binders of the comprehension
+                c.binders.extend(binders)
+                vidx = [z3.simplify(k[d] + core._lift(off[d]) - js[d]) for d in range(nd)]
+                inr = z3.And(*[z3.And(vidx[d] >= 0, vidx[d] < core._lift(MV[d])) for d in range(nd)])
+                w = vs(tuple(vidx)).value()
+                v = ls(tuple(js))
+                defs = [x_ for x_ in c.binders if x_ not in saved and x_ not in binders]
+                allb = binders + defs
+            finally:
+                c.binders[:] = saved
+            if not v.const.is_zero():
+                raise core.Unsupported("convolution of a non-homogeneous value")
+            return LF(snp.C0, [Term(tuple(allb) + t.binders, tuple(b.range_cond() for b in allb) + (inr,) + t.guard, t.coef * w, t.atom, t.idx, t.conj)
+                                for t in v.terms])
+        return SArr(tuple(oshape), el, snp.CDT)
+
+    @staticmethod
+    def correlate(in1, in2, mode="full", method="auto"):
+        if _is_linear(in2):
+            raise core.Unsupported("correlation with an input-dependent second operand")
+        s2 = in2._snapshot()
+        sh = list(in2.shape)
+        rb = SArr(tuple(sh), lambda k: s2(tuple(core._lift(S(n) - 1) - k[d] for d, n in enumerate(sh))).conjugate(), in2.dtype)
+        return ScipyC.convolve(in1, rb, mode)
+
+
+def _ns_full():
+    util_ns = base_ns()
+    src.load_module(UTIL, util_ns)
+    util = Mod(util_ns, UTIL)
+    ns = base_ns(util=util, signal=ScipyC)
+    src.load_module(CONV, ns)
+    return Mod(ns, CONV)
+
+
+def spec_convolve(data, filt, m, n, s, mode, B, ci, co):
+    """the property's definition on the normalised layout data [B, ci, m..], filt [co, ci, n..] -> [B, co, p..]:
+    out[b, o, q] = sum_i sum_t data[b, i, t] * filt[o, i, q*s + off - t],  off = 0 (full) / min(m, n) - 1 (valid)"""
+    D = len(m)
+    if mode == "full":
+        off = [0] * D
+        L = [S(a) + S(b) - 1 for a, b in zip(m, n)]
+    else:
+        off = [core.sym_min(S(a), S(b)) - 1 for a, b in zip(m, n)]
+        L = [core.sym_max(S(a), S(b)) - core.sym_min(S(a), S(b)) + 1 for a, b in zip(m, n)]
+    p = [(l + S(sd) - 1) // S(sd) for l, sd in zip(L, s)]
+    ds, fs = data._snapshot(), filt._snapshot()
+    lin_data = _is_linear(data)
+
+    def el(k):
+        b, o, q = k[0], k[1], k[2:]
+        tot = LF(snp.C0)
+        for i in range(ci):
+            ts = [core.fresh_int("ct") for _ in range(D)]
+            rng = m if lin_data else n
+            binders = [Binder(t, 0, e) for t, e in zip(ts, rng)]
+            other = [z3.simplify(q[d] * core._lift(S(s[d])) + core._lift(off[d]) - ts[d]) for d in range(D)]
+            orng = n if lin_data else m
+            inr = z3.And(*[z3.And(other[d] >= 0, other[d] < core._lift(orng[d])) for d in range(D)])
+            if lin_data:
+                v = ds((b, z3.IntVal(i)) + tuple(ts))
+                w = fs((o, z3.IntVal(i)) + tuple(other)).value()
+            else:
+                v = fs((o, z3.IntVal(i)) + tuple(ts))
+                w = ds((b, z3.IntVal(i)) + tuple(other)).value()
+            tot = tot + LF(snp.C0, [Term(tuple(binders) + t.binders, tuple(x.range_cond() for x in binders) + (inr,) + t.guard, t.coef * w, t.atom, t.idx, t.conj)
+                                    for t in v.terms])
+        return tot
+    return SArr((B, co) + tuple(p), el, snp.CDT)
+
+
+def job_sums(D, mode, longer, B, ci, co, timeout_ms):
+    """convolve == definition; convolve_data_adjoint / convolve_filter_adjoint exact adjoints (multi-channel layout)"""
+    M = _ns_full()
+    rec = record(CONV, "_convolve")[0]
+    st = {}
+
+    def run():
+        m, n, s = ints("m", D), ints("n", D), ints("s", D)
+        for e in m + n + s:
+            core.assume(e >= 1)
+        for a, b in zip(m, n):
+            if mode == "valid":
+                core.assume((a >= b) if longer == "data" else (a < b))
+        dshape, fshape = [B, ci] + m, [co, ci] + n
+        x = SArr.input("x", dshape)
+        fv = SArr.input("filt", fshape, valued=True)
+        out = M._convolve(x, fv, mode=mode, strides=s, multi_channel=True)
+        y = SArr.input("y", list(out.shape))
+        dadj = M._convolve_data_adjoint(y, fv, dshape, mode=mode, strides=s, multi_channel=True)
+        # linear in the filter
+        f = SArr.input("f", fshape)
+        xv = SArr.input("data", dshape, valued=True)
+        outf = M._convolve(xv, f, mode=mode, strides=s, multi_channel=True)
+        fadj = M._convolve_filter_adjoint(y, xv, fshape, mode=mode, strides=s, multi_channel=True)
+        st[core.cur()] = (m, n, s, x, fv, out, y, dadj, f, xv, outf, fadj, dshape, fshape)
+        return True
+    results = explore(run, max_paths=64)
+    inst = "sums(D=%d,mode=%s,longer=%s,B=%d,ci=%d,co=%d)" % (D, mode, longer, B, ci, co)
+
+    def post(r):
+        if r.kind != "return":
+            return [("C08:runs-without-error(%s)" % (r.value,), [], z3.BoolVal(False))]
+        m, n, s, x, fv, out, y, dadj, f, xv, outf, fadj, dshape, fshape = st[r.ctx]
+        with core.spec_side():
+            want = spec_convolve(x, fv, m, n, s, mode, B, ci, co)
+            wantf = spec_convolve(xv, f, m, n, s, mode, B, ci, co)
+        obs = []
+        ok = len(out.shape) == len(want.shape)
+        obs.append(("C08:convolve-output-shape", [], z3.And(z3.BoolVal(ok), *[core._lift(a) == core._lift(b) for a, b in zip(out.shape, want.shape)])))
+        obs.append(("C08:data-adjoint-shape==data-shape", [], z3.And(z3.BoolVal(len(dadj.shape) == len(dshape)), *[core._lift(a) == core._lift(b) for a, b in zip(dadj.shape, dshape)])))
+        obs.append(("C08:filter-adjoint-shape==filter-shape", [], z3.And(z3.BoolVal(len(fadj.shape) == len(fshape)), *[core._lift(a) == core._lift(b) for a, b in zip(fadj.shape, fshape)])))
+        if not ok or len(dadj.shape) != len(dshape) or len(fadj.shape) != len(fshape):
+            return obs
+        k = [z3.Int("k%d" % d) for d in range(len(want.shape))]
+        t = [z3.Int("t%d" % d) for d in range(len(dshape))]
+        u = [z3.Int("u%d" % d) for d in range(len(fshape))]
+        bk, bt, bu = box(k, want.shape), box(t, dshape), box(u, fshape)
+        ok_, wk = out.elem(tuple(k)), want.elem(tuple(k))
+        for sfx, g in lf_equal_goals(ok_, wk):
+            obs.append(("C08:convolve==sum_i,t data*flipped-filter (strided)[%s]" % sfx, bk, g))
+        for sfx, g in lf_equal_goals(outf.elem(tuple(k)), wantf.elem(tuple(k))):
+            obs.append(("C08:convolve==definition (linear in the filter)[%s]" % sfx, bk, g))
+        from .linops import adjoint_goals
+        for sfx, g in adjoint_goals(ok_, dadj.elem(tuple(t)), "x", "y", k, t):
+            obs.append(("C08:convolve_data_adjoint-is-the-exact-adjoint[%s]" % sfx, bk + bt, g))
+        for sfx, g in adjoint_goals(outf.elem(tuple(k)), fadj.elem(tuple(u)), "f", "y", k, u):
+            obs.append(("C08:convolve_filter_adjoint-is-the-exact-adjoint[%s]" % sfx, bk + bu, g))
+        return obs
+    obs, covers = path_obligations("C08/%s" % inst, results, post, instance=inst, fn_record=rec)
+    return check_obligations(obs, timeout_ms) + covers
+
+
 def jobs(tier):
     M = "contracts.C08"
     js = [Job(M, "job_reject")]
@@ -117,6 +302,12 @@ def jobs(tier):
                     if D == 3 and mc and ws and tier == "quick":
                         continue
                     js.append(Job(M, "job_params", D=D, mode=mode, mc=mc, with_strides=ws, nbatch=1 if mc else 0))
+    for D in ((1, 2) if tier == "thorough" else (1,)):
+        for mode, longer in (("full", "-"), ("valid", "data"), ("valid", "filter")):
+            for B, ci, co in ((1, 1, 1), (2, 1, 2), (1, 2, 2), (2, 2, 1)):      # 8 loop iterations (2,2,2) blow up the term count
+                if D == 2 and (B, ci, co) != (1, 1, 1):
+                    continue
+                js.append(Job(M, "job_sums", D=D, mode=mode, longer=longer, B=B, ci=ci, co=co))
     return js
 
 
